@@ -418,6 +418,9 @@ def build_model(case, mon):
     n_el = 1 if N is None else N
     if spec["lm"] == "hash":
         lm = LM.make_hashlm(spec)
+        if case.get("eos") is not None and case["V"] >= 2 and (case["width"] + case["V"]) % 3 == 0:
+            lm.post_eos_zero = case["eos"] % case["V"]
+            mon.cls("lm_forbids_eos_after_eos")
         cond = case.get("cond")
         conds = [0] * n_el if cond is None else list(cond)
         init = None if cond is None else lm.initial_state(cond)
@@ -459,16 +462,25 @@ class _Skip(Exception):
 # --------------------------------------------------------------------------- running a search
 
 
-def run_search(mon, case, lm, init, batch, conds, label):
-    """Drive the real BeamSearch; returns the raw output, the recorded steps, the LM log."""
+def run_search(mon, case, lm, init, batch, conds, label, warm=None):
+    """Drive the real BeamSearch; returns the raw output, the recorded steps, the LM log.
+    warm=(state, conds) : the SAME module object first runs a short single-element search (a history of
+    calls with different batch sizes on one object), unrecorded, before the judged call."""
     from pydrobert.torch.modules import BeamSearch
 
+    search = BeamSearch(lm, case["width"], case["eos"], case["finish_all"], case["pad_value"])
+    if warm is not None:
+        _REC["on"] = False
+        if hasattr(lm, "begin"):
+            lm.begin(warm[1])
+        st0 = None if warm[0] is None else {k: v.clone() for k, v in warm[0].items()}
+        mon.lib("BeamSearch(warm-up call on the same object)", lambda: search(st0, 1, 2))
+        mon.cls("module_object_reused")
     _REC["steps"], _REC["on"] = [], True
     if hasattr(lm, "begin"):
         lm.begin(conds)
     try:
         def call():
-            search = BeamSearch(lm, case["width"], case["eos"], case["finish_all"], case["pad_value"])
             state = None if init is None else {k: v.clone() for k, v in init.items()}
             return search(state, batch, case["_max_iters"])
 
@@ -659,7 +671,10 @@ def execute(case, mon):
     if width > V:
         mon.cls("width>V")
 
-    out, steps, log = run_search(mon, case, lm, init, N, conds, "batched")
+    warm = None
+    if N is not None and N > 1 and (width + V + N) % 2 == 0:
+        warm = (solo[0] if (init is not None or conds is None) else None, None if conds is None else [conds[0]])
+    out, steps, log = run_search(mon, case, lm, init, N, conds, "batched", warm=warm)
     jcase = dict(case)
     jcase["_max_iters"] = limit if case["_max_iters"] is None else case["_max_iters"]
     res, S = split_output(mon, case, out, N, "batched")
